@@ -238,12 +238,18 @@ class World:
                         event.stop()
                     elif op == 'mstop':
                         w.log.append(('stopcall', hid, eid, st[1]))
-                        self.stop(st[1]) if st[1] is not None else self.stop()
+                        try:
+                            self.root.stop(st[1]) if st[1] is not None else self.root.stop()
+                        except SystemExit:
+                            w.log.append(('exit', hid, eid, 'sysexit-from-stop'))
+                            raise
                     elif op == 'sysexit':
                         w.log.append(('stopcall', hid, eid, st[1]))
+                        w.log.append(('exit', hid, eid, 'sysexit'))
                         raise SystemExit(st[1]) if st[1] is not None else SystemExit()
                     elif op == 'kbd':
                         w.log.append(('stopcall', hid, eid, 'kbd'))
+                        w.log.append(('exit', hid, eid, 'kbd'))
                         raise KeyboardInterrupt()
                 w.log.append(('exit', hid, eid, 'end'))
         else:
@@ -272,15 +278,22 @@ class World:
                             return v
                         elif op == 'mstop':
                             w.log.append(('stopcall', hid, eid, st[1]))
-                            self.stop(st[1]) if st[1] is not None else self.stop()
+                            self.root.stop(st[1]) if st[1] is not None else self.root.stop()
                         elif op == 'sysexit':
                             w.log.append(('stopcall', hid, eid, st[1]))
+                            w.log.append(('exit', hid, eid, 'sysexit'))
                             raise SystemExit(st[1]) if st[1] is not None else SystemExit()
                         elif op == 'kbd':
                             w.log.append(('stopcall', hid, eid, 'kbd'))
+                            w.log.append(('exit', hid, eid, 'kbd'))
                             raise KeyboardInterrupt()
                     w.log.append(('exit', hid, eid, 'end'))
                     return None
+                except SystemExit:
+                    # raised by Manager.stop(code) called from this handler
+                    if not (w.log and w.log[-1][0] == 'exit' and w.log[-1][1] == hid):
+                        w.log.append(('exit', hid, eid, 'sysexit-from-stop'))
+                    raise
                 finally:
                     w.depth -= 1
         fn.__name__ = 'gh_%s' % hid
